@@ -22,7 +22,7 @@ PROPS = {
                          "user code accesses only the granted window"]),
     "C10": dict(module="MRB.Props.C10", level="proof", profiles=[], engines=["conc"], gen_items=["concAcc", "skeletons", "loops", "check"],
                 trusted=["OS scheduling and real time are not modelled"]),
-    "C04": dict(module="MRB.Props.C04", level="proof", profiles=[prof("order", 500, exhaustive=5)], engines=["conc"],
+    "C04": dict(module="MRB.Props.C04", level="proof", profiles=[prof("order", 500, exhaustive=5), prof("async", 150, 1500, features=["async"], binary="asyncdiff")], engines=["conc"],
                 gen_items=["advanceLocal", "advance", "check", "prodAvail", "workAvail", "consAvail", "wiring", "skeletons"], trusted=SEQ_TRUST),
     "C05": dict(module="MRB.Props.C05", level="proof", search=[("conc", ["C05"])], profiles=[prof("avail", 500, exhaustive=5), prof("reset", 150, 1500), prof("construct", 150, 1500), prof("detached", 150, 1500)],
                 gen_items=["check", "prodAvail", "workAvail", "consAvail", "sliceAvail", "sliceMultipleOf", "skeletons"], trusted=SEQ_TRUST),
